@@ -290,7 +290,7 @@ def _unshift(db, chk):
     cs = [c for c in H.calls(g) if H.name_id(c.func) == "add_time_series"]
     got = {}
     for c in cs:
-        kws = {k.arg: k.value for k in c.keywords}
+        kws = H.bound_args(c)
         src = ast.unparse(kws.get("series_dict")) if "series_dict" in kws else ""
         got["queue" if "queue_length" in src else "membw" if "memory_bw" in src else src] = (H.str_const(kws.get("counter_col")), H.str_const(kws.get("counter_name")))
     chk.ob(rule, "wrapper reads the columns the series functions produce", got.get("queue", (None,))[0] == "queue_length" and got.get("membw", (None,))[0] == "memory_bw_gbps",
